@@ -663,6 +663,26 @@ def gen_simulate(tier, seed):
             yield {"spec": O.spec_to_json(spec), "seed": seed * 1000 + di}
 
 
+class _Watchdog(Exception):
+    pass
+
+
+def _with_deadline(secs, fn):
+    """run fn(); raise _Watchdog if it is still running after `secs` (rejection sampling on an impossible event never returns)."""
+    import signal
+
+    def handler(signum, frame):
+        raise _Watchdog()
+
+    old = signal.signal(signal.SIGALRM, handler)
+    signal.setitimer(signal.ITIMER_REAL, secs)
+    try:
+        return fn()
+    finally:
+        signal.setitimer(signal.ITIMER_REAL, 0)
+        signal.signal(signal.SIGALRM, old)
+
+
 def check_simulate(case):
     spec = O.spec_from_json(case["spec"])
     nodes, edges = spec["nodes"], spec["edges"]
@@ -683,8 +703,12 @@ def check_simulate(case):
                     p *= O.cpd_value(spec, v, a)
                 if p:
                     support[tuple(a[v] for v in nodes)] = p
-            df = model.simulate(n_samples=N, do=dict(do), seed=case["seed"], show_progress=False)
             where = f"simulate(do={do}) edges={edges}"
+            try:
+                df = _with_deadline(30, lambda: model.simulate(n_samples=N, do=dict(do), seed=case["seed"], show_progress=False))
+            except _Watchdog:
+                return {"key": "simulate:no-termination", "what": f"{where}: {N} samples not produced within 30 s although the do-state has positive "
+                        f"probability in the marginalised CPD (conditioning on an impossible event?)"}
             if set(df.columns) != set(nodes) or len(df) != N:
                 return {"key": "simulate:shape", "what": f"{where}: columns {list(df.columns)} rows {len(df)}"}
             rows = {tuple(r) for r in df[nodes].itertuples(index=False, name=None)}
@@ -698,6 +722,35 @@ def check_simulate(case):
                             f"but never occurs in {N} samples (conditioning instead of intervening?)"}
     if _edges_of(model) != {tuple(e) for e in edges}:
         return {"key": "simulate:model-mutated", "what": "simulate(do=) changed the model"}
+    return None
+
+
+def gen_simulate_unreachable(tier, seed):
+    """child = deterministic function of a binary parent with 3 states: one child state is produced by no parent configuration."""
+    for names in (["alpha", "beta"], ["x1", "x0"]):
+        a, b = names
+        spec = {"nodes": names, "edges": [[a, b]], "states": {a: ["lo", "hi"], b: [0, 1, 2]},
+                "cpd": {a: {"parents": [], "table": [[Fraction(1, 3)], [Fraction(2, 3)]]},
+                        b: {"parents": [a], "table": [[Fraction(1), Fraction(0)], [Fraction(0), Fraction(1)], [Fraction(0), Fraction(0)]]}}}
+        yield {"spec": O.spec_to_json(spec), "seed": seed, "do": {b: 2}}
+
+
+def check_simulate_unreachable(case):
+    spec = O.spec_from_json(case["spec"])
+    model = O.make_bn(spec)
+    do = case["do"]
+    (x, xs), = do.items()
+    pa = spec["cpd"][x]["parents"][0]
+    try:
+        df = _with_deadline(10, lambda: model.simulate(n_samples=200, do=dict(do), seed=case["seed"], show_progress=False))
+    except _Watchdog:
+        return {"key": "simulate:unreachable-do-state:no-termination",
+                "what": f"simulate(do={do}) on {spec['edges']} did not return within 10 s: state {xs!r} of {x} has probability 0 under every parent "
+                        f"configuration, the marginalised CPD gives it probability 0 and rejection sampling never accepts"}
+    if set(df[x]) != {xs}:
+        return {"key": "simulate:unreachable-do-state:not-clamped", "what": f"{x} takes values {set(df[x])} under do={do}"}
+    if set(df[pa]) != set(spec["states"][pa]):
+        return {"key": "simulate:unreachable-do-state:parent-support", "what": f"{pa} takes values {set(df[pa])} under do={do} (should keep its prior 1/3, 2/3)"}
     return None
 
 
@@ -735,4 +788,6 @@ def groups(tier):
               bound="BNs on DAGs with 2..3 nodes (thorough: 1/8 of 4-node DAGs), random roots and deterministic children; do-sets of size <= 2 with states "
                     "that some parent configuration produces (simulate does not terminate otherwise); 500 samples with fixed seed: samples inside the "
                     "exact support of the truncated factorisation and covering it when every support point has probability >= 1/18"),
+        Group("simulate_do_unreachable_state", gen_simulate_unreachable, check_simulate_unreachable, _nt_spec, engine="E3",
+              bound="2 two-node models whose child has a state that no parent configuration produces; do(child = that state), 10 s deadline"),
     ]
